@@ -97,8 +97,14 @@ class WalkInterp(Interp):
         # handlers are taken to be installed: an absent handler behaves like one answering CONTINUE but makes no
         # callback, which is outside the property ("presents every ... to the handlers")
         p = path(strip(cond)) or ""
-        if p.startswith("handler->handle_") and not truth:
+        if p.startswith("handler->handle_") and not truth and not getattr(self, "allow_absent", False):
             return None
+        # the same test written as a comparison with NULL
+        z = cfgq.zero_test(cond, lambda e: (path(strip(e)) or "").startswith("handler->handle_"))
+        if z is not None and not getattr(self, "allow_absent", False):
+            absent_outcome = (z == "true")
+            if truth == absent_outcome:
+                return None
         return st
 
     def assign(self, st, node, lhs, p, av, rhs):
@@ -207,6 +213,29 @@ def run(prog, chk):
             r2.violation(fn.file, w, line, "return:%s:%s" % (w, what), msg, path=["L%s" % x for x in st.trail_lines()])
         if not bad_ret:
             r2.ok("%s:returns" % w, "%d exits: END/positive results propagated%s" % (len(it.exits), ", directives mapped to CIF_OK" if w == "cif_walk" else ""))
+    # with any subset of the handlers absent, cif_walk still never returns a directive
+    wf = prog.fn("cif_walk")
+    it_abs = WalkInterp(prog, wf, "any")
+    it_abs.allow_absent = True
+    it_abs.run()
+    leak = None
+    for st, av, node in it_abs.exits:
+        stop = st.ts[0]
+        if stop in ("END", "POS") or av is None:
+            continue
+        if any(av.contains(d) for d in (SKIPC, SKIPS, END)):
+            leak = (st, av, node)
+            break
+    if it_abs.overflow:
+        r2.unproved("cif_walk:returns-with-absent-handlers", "state cap reached")
+    elif leak:
+        st, av, node = leak
+        r2.violation(wf.file, "cif_walk", node.get("l") if node else wf.endline, "return:cif_walk:directive-leak-absent-handler",
+                     "when some handlers are absent cif_walk can return a traversal directive (%s) left over from an earlier "
+                     "callback: a value that is only overwritten where a handler exists" % str(av),
+                     path=["L%s" % x for x in st.trail_lines()][-25:])
+    else:
+        r2.ok("cif_walk:returns-with-absent-handlers", "%d exits with any subset of handlers absent: no directive returned" % len(it_abs.exits))
     # an absent handler behaves like one that answers CONTINUE
     n_def = 0
     for w in WALKERS:
